@@ -75,7 +75,7 @@ def conclude(prop, tier, seed, rules, t0, explanation, assumptions, extra=None):
                 listed.append((v, f))
             else:
                 unlisted.append(v)
-    ev_dir = os.path.join(VERIF, "evidence")
+    ev_dir = os.environ.get("VERIF_EVIDENCE_DIR") or os.path.join(VERIF, "evidence")
     rp_dir = os.path.join(ev_dir, "replay")
     os.makedirs(rp_dir, exist_ok=True)
     for old in os.listdir(rp_dir):
